@@ -871,3 +871,80 @@ func indexOrder(files []*ast.File) {
 
 func startOf(n ast.Node) int { return nodeOrd[n][0] }
 func endOf(n ast.Node) int   { return nodeOrd[n][1] }
+
+// expandLocals returns e with every single-assignment local replaced, deeply,
+// by the expression it was defined with (`field := st.Field(i); name :=
+// field.Name(); … strconv.Quote(name)` reads `strconv.Quote(st.Field(i).Name())`).
+// Only the shells of rewritten nodes are new; identifiers and unchanged
+// sub-expressions keep their recorded types and objects.
+func (fi *FuncInfo) expandLocals(e ast.Expr) ast.Expr {
+	return fi.expandLocalsN(e, 0)
+}
+
+func (fi *FuncInfo) expandLocalsN(e ast.Expr, depth int) ast.Expr {
+	if e == nil || depth > 12 {
+		return e
+	}
+	switch x := e.(type) {
+	case *ast.ParenExpr:
+		return fi.expandLocalsN(x.X, depth)
+	case *ast.Ident:
+		if v := fi.varOf(x); v != nil {
+			if d := fi.singleDef(v); d != nil && d.idx < 0 && d.rhs != nil && d.kind != "param" {
+				return fi.expandLocalsN(d.rhs, depth+1)
+			}
+		}
+		return x
+	case *ast.BinaryExpr:
+		a, b := fi.expandLocalsN(x.X, depth+1), fi.expandLocalsN(x.Y, depth+1)
+		if a == x.X && b == x.Y {
+			return x
+		}
+		return &ast.BinaryExpr{X: a, OpPos: x.OpPos, Op: x.Op, Y: b}
+	case *ast.UnaryExpr:
+		a := fi.expandLocalsN(x.X, depth+1)
+		if a == x.X {
+			return x
+		}
+		return &ast.UnaryExpr{OpPos: x.OpPos, Op: x.Op, X: a}
+	case *ast.StarExpr:
+		a := fi.expandLocalsN(x.X, depth+1)
+		if a == x.X {
+			return x
+		}
+		return &ast.StarExpr{Star: x.Star, X: a}
+	case *ast.SelectorExpr:
+		a := fi.expandLocalsN(x.X, depth+1)
+		if a == x.X {
+			return x
+		}
+		return &ast.SelectorExpr{X: a, Sel: x.Sel}
+	case *ast.IndexExpr:
+		a, b := fi.expandLocalsN(x.X, depth+1), fi.expandLocalsN(x.Index, depth+1)
+		if a == x.X && b == x.Index {
+			return x
+		}
+		return &ast.IndexExpr{X: a, Lbrack: x.Lbrack, Index: b, Rbrack: x.Rbrack}
+	case *ast.CallExpr:
+		changed := false
+		fun := fi.expandLocalsN(x.Fun, depth+1)
+		if _, isId := x.Fun.(*ast.Ident); isId {
+			fun = x.Fun // a called function value is not expanded
+		}
+		if fun != x.Fun {
+			changed = true
+		}
+		args := make([]ast.Expr, len(x.Args))
+		for i, a := range x.Args {
+			args[i] = fi.expandLocalsN(a, depth+1)
+			if args[i] != a {
+				changed = true
+			}
+		}
+		if !changed {
+			return x
+		}
+		return &ast.CallExpr{Fun: fun, Lparen: x.Lparen, Args: args, Ellipsis: x.Ellipsis, Rparen: x.Rparen}
+	}
+	return e
+}
